@@ -169,7 +169,7 @@ class BHistory:
         kind = rng.choices(kinds, [self.w[k] for k in kinds])[0]
         present = self.present
         if kind == "reopen":
-            return {"op": "reopen", "root": rng.randrange(1000) if rng.random() < 0.4 else -1, "assign": int(rng.random() < 0.5), "lost": int(rng.random() < 0.25)}
+            return {"op": "reopen", "root": rng.randrange(1000) if rng.random() < 0.4 else -1, "assign": rng.choice([0, 0, 1, 1, 2]), "lost": int(rng.random() < 0.25)}
         if kind in ("del", "sete") and present and rng.random() < 0.8:
             k = rng.choice(sorted(present))
         elif kind == "sub":
